@@ -1,6 +1,7 @@
 package model
 
 import (
+	"fmt"
 	"regexp"
 	"strings"
 	"unicode/utf8"
@@ -52,6 +53,14 @@ func Parse(text string) (p Pattern, ok bool) {
 					v.Name, v.Re = strings.TrimSpace(inner[:k]), strings.TrimSpace(inner[k+1:])
 					if v.Re == "" {
 						return q, false
+					}
+					if inner != v.Name+":"+v.Re {
+						l, r := inner[:k], inner[k+1:]
+						v.Fmt = l[:len(l)-len(strings.TrimLeft(l, " \t"))] + "%s" + l[len(strings.TrimRight(l, " \t")):] + ":" +
+							r[:len(r)-len(strings.TrimLeft(r, " \t"))] + "%s" + r[len(strings.TrimRight(r, " \t")):]
+						if fmt.Sprintf(v.Fmt, v.Name, v.Re) != inner {
+							return q, false // white space other than blank and tab: not generated, not modelled
+						}
 					}
 				} else {
 					v.Name = inner
